@@ -395,13 +395,14 @@ def _resolve_zerocopy(m):
     return {"type": "http.response.body", "body": data, "more_body": bool(m.get("more_body", False)), "zerocopy": True}
 
 
-def run_asgi(app, scope, messages, monitor=True, send_fail_at=None, horizon=200000, disconnect_type="http.disconnect", receive_raises=False, send_yields=False):
+def run_asgi(app, scope, messages, monitor=True, send_fail_at=None, horizon=200000, disconnect_type="http.disconnect", receive_raises=False, send_yields=False, executor_order="inline"):
     """Run an ASGI http app under the default schedule of the virtual loop.
     receive() hands out `messages` in order; after they are exhausted it stays pending until nothing else can run,
     then returns http.disconnect (and on every later call). send_fail_at=n: the n-th send (0-based) raises OSError."""
     res = AsgiResult()
     msgs = list(messages)
     with Session() as s:
+        s.loop.executor_order = executor_order
         state = {"i": 0, "disconnected": False, "sends": 0}
 
         async def receive():
